@@ -45,8 +45,8 @@ def use_repo():
         sys.path.insert(0, src)
 
 
-class Timeout(Exception):
-    pass
+class Timeout(BaseException):
+    """BaseException: the interpreter's host-exception boundary (`except Exception`) must not turn the bound into a language-level error"""
 
 
 @contextlib.contextmanager
@@ -54,7 +54,7 @@ def time_limit(seconds):
     def handler(signum, frame):
         raise Timeout()
     old = signal.signal(signal.SIGALRM, handler)
-    signal.setitimer(signal.ITIMER_REAL, seconds)
+    signal.setitimer(signal.ITIMER_REAL, seconds, 0.5)   # re-fires: a finally part of the program may swallow one
     try:
         yield
     finally:
